@@ -694,64 +694,93 @@ def rule_a13(ctx):
     merely skips the sign bit (`for &w in y.iter().skip(1)` for `y == -1`) holds for MAX as well: `MIN / MAX` panics although the
     quotient -1 is representable."""
     res = RuleResult("A13", "a conjunction over the wires of an operand that starts at the second wire also takes the first wire")
-    f, body = _body(ctx)
+    f, main_body = _body(ctx)
     n = 0
-    for lp in body.loops():
-        nexts = [b for b in lp["body"] if body.term(b) and body.term(b)["k"] == "call" and body.term(b)["func"].get("declared") == "std::iter::Iterator::next"]
-        if len(nexts) != 1:
-            continue
-        # the adaptor chain of the loop's iterator
-        chain, cur, src = [], body.term(nexts[0])["args"][0], None
-        for _ in range(8):
-            nxt = None
-            for (r, p) in body.trace_operand(cur, through={}) if cur["k"] in ("copy", "move") else ():
-                if r[0] == "call":
-                    t = body.term(r[1])
-                    chain.append((mir.last_seg(r[2] or ""), t))
-                    if t["args"]:
-                        nxt = t["args"][0]
-                        if mir.last_seg(r[2] or "") in ("iter", "into_iter", "deref"):
-                            src = t["args"][0]
-            if nxt is None:
-                break
-            cur = nxt
-        skips = [t for seg, t in chain if seg == "skip" and len(t["args"]) == 2 and t["args"][1].get("val") == 1]
-        if not skips or src is None:
-            continue
-        folds = [b for b in lp["body"] if body.term(b) and body.term(b)["k"] == "call" and mir.last_seg(mir.callee(body.term(b)) or "") == "push_and" and not body.blocks[b]["cleanup"]]
-        if not folds:
-            continue        # not a conjunction (e.g. a loop that rewrites the remaining elements)
-        n += 1
-        vec = {(r, tuple(p)) for (r, p) in body.trace_operand(src)}
-        # the first wire of the same vector, read with a constant index 0, feeds the accumulator of the fold
-        # (only reads in the operator arm(s) the loop belongs to count: the operands are shared by all arms)
-        arm = set()
-        for label, assume, _c in CIRCUITS:
-            reg = set(body.reachable([0], succ=body.pruned_succ(assume)))
-            if lp["header"] in reg:
-                arm |= reg
-        firsts = [b for b, t in body.calls() if t["func"].get("declared") in ("std::ops::Index::index",) and len(t["args"]) == 2 and t["args"][1].get("val") == 0 and
-                  {(r, tuple(p)) for (r, p) in body.trace_operand(t["args"][0])} & vec and (not arm or b in arm) and not body.blocks[b]["cleanup"]]
-        if arm:
-            # ... and not in the part of the function that every arm shares
-            shared = None
-            for label, assume, _c in CIRCUITS:
-                reg = set(body.reachable([0], succ=body.pruned_succ(assume)))
-                shared = reg if shared is None else shared & reg
-            firsts = [b for b in firsts if b not in (shared or set())]
-        acc_srcs = set()
-        for b in folds:
-            for a in body.term(b)["args"][1:3]:
-                acc_srcs |= {r[1] for (r, p) in body.deep_sources(a, 3, through=protocol_deref()) if r[0] == "call"}
-        if any(fb in acc_srcs for fb in firsts):
-            res.ok({"loop": "line %d" % body.term(nexts[0])["sp"][1], "verdict": "the skipped first wire starts the accumulator"})
-        elif firsts:
-            # (the first wire is looked at on its own, e.g. `all_bits_except_msb_are_zero` next to `result[0]`)
-            res.ok({"loop": "line %d" % body.term(nexts[0])["sp"][1], "verdict": "the skipped first wire of the same vector is read separately (line %d)" % body.term(firsts[0])["sp"][1]})
-        else:
-            res.bad(Finding("A13", f["id"], "a conjunction over an operand's wires leaves out the first wire",
-                            "the fold runs over `.iter().skip(1)` and the first wire of the same vector never enters the accumulator: the condition also holds for values that differ in the "
-                            "sign bit (`y == -1` tested without the sign bit holds for MAX: MIN / MAX panics with Overflow although -1 is representable)", body.term(nexts[0])["sp"]))
+    # the lowering itself and the helpers it calls with the wires of an operand (a fold moved into a function of its own)
+    bodies = [(f, main_body)]
+    for _b, t in main_body.calls():
+        cal = mir.callee(t) or ""
+        if ctx.has_fn(cal) and cal != f["id"] and cal.startswith("compile::") and "circuit::" not in cal and all(cal != x[0]["id"] for x in bodies):
+            hb = ctx.body(cal)
+            if hb.loops() and any("[usize]" in (a.get("place") or {}).get("ty", "") or "Vec<usize>" in (a.get("place") or {}).get("ty", "") for a in t["args"]):
+                bodies.append((ctx.fns[cal], hb))
+    for f, body in bodies:
+      is_main = body is main_body
+      for lp in body.loops():
+          nexts = [b for b in lp["body"] if body.term(b) and body.term(b)["k"] == "call" and body.term(b)["func"].get("declared") == "std::iter::Iterator::next"]
+          if len(nexts) != 1:
+              continue
+          # the adaptor chain of the loop's iterator
+          chain, cur, src = [], body.term(nexts[0])["args"][0], None
+          for _ in range(8):
+              nxt = None
+              for (r, p) in body.trace_operand(cur, through={}) if cur["k"] in ("copy", "move") else ():
+                  if r[0] == "call":
+                      t = body.term(r[1])
+                      chain.append((mir.last_seg(r[2] or ""), t))
+                      if t["args"]:
+                          nxt = t["args"][0]
+                          if mir.last_seg(r[2] or "") in ("iter", "into_iter", "deref"):
+                              src = t["args"][0]
+              if nxt is None:
+                  break
+              cur = nxt
+          skips = [t for seg, t in chain if seg == "skip" and len(t["args"]) == 2 and t["args"][1].get("val") == 1]
+          if not skips or src is None:
+              continue
+          folds = [b for b in lp["body"] if body.term(b) and body.term(b)["k"] == "call" and mir.last_seg(mir.callee(body.term(b)) or "") == "push_and" and not body.blocks[b]["cleanup"]]
+          if not folds:
+              continue        # not a conjunction (e.g. a loop that rewrites the remaining elements)
+          n += 1
+          vec = {(r, tuple(p)) for (r, p) in body.trace_operand(src)}
+          # the first wire of the same vector, read with a constant index 0, feeds the accumulator of the fold
+          # (only reads in the operator arm(s) the loop belongs to count: the operands are shared by all arms)
+          arm = set()
+          for label, assume, _c in (CIRCUITS if is_main else ()):
+              reg = set(body.reachable([0], succ=body.pruned_succ(assume)))
+              if lp["header"] in reg:
+                  arm |= reg
+          firsts = [b for b, t in body.calls() if t["func"].get("declared") in ("std::ops::Index::index",) and len(t["args"]) == 2 and t["args"][1].get("val") == 0 and
+                    {(r, tuple(p)) for (r, p) in body.trace_operand(t["args"][0])} & vec and (not arm or b in arm) and not body.blocks[b]["cleanup"]]
+          # (a slice is indexed by a place projection, not by a call of Index::index)
+          for b, blk in enumerate(body.blocks):
+              if blk["cleanup"] or (arm and b not in arm):
+                  continue
+              for st in blk["stmts"]:
+                  op = st["rv"].get("op") if st["k"] == "assign" and st["rv"]["k"] == "use" else None
+                  if not (isinstance(op, dict) and op.get("k") in ("copy", "move")):
+                      continue
+                  pr = op["place"]["p"]
+                  ix = [e for e in pr if e["k"] in ("index", "constant_index")]
+                  if not ix:
+                      continue
+                  e = ix[-1]
+                  zero = e.get("offset") == 0 if e["k"] == "constant_index" else any(
+                      d[0] == "assign" and d[3]["rv"]["k"] == "use" and d[3]["rv"]["op"].get("k") == "const" and d[3]["rv"]["op"].get("val") == 0
+                      for d in body.defs().get(e.get("local"), []))
+                  base = {"l": op["place"]["l"], "p": [], "ty": body.locals[op["place"]["l"]]["ty"]}
+                  if zero and {(r, tuple(p)) for (r, p) in body.trace(base)} & vec:
+                      firsts.append(b)
+          if arm:
+              # ... and not in the part of the function that every arm shares
+              shared = None
+              for label, assume, _c in CIRCUITS:
+                  reg = set(body.reachable([0], succ=body.pruned_succ(assume)))
+                  shared = reg if shared is None else shared & reg
+              firsts = [b for b in firsts if b not in (shared or set())]
+          acc_srcs = set()
+          for b in folds:
+              for a in body.term(b)["args"][1:3]:
+                  acc_srcs |= {r[1] for (r, p) in body.deep_sources(a, 3, through=protocol_deref()) if r[0] == "call"}
+          if any(fb in acc_srcs for fb in firsts):
+              res.ok({"loop": "line %d" % body.term(nexts[0])["sp"][1], "verdict": "the skipped first wire starts the accumulator"})
+          elif firsts:
+              # (the first wire is looked at on its own, e.g. `all_bits_except_msb_are_zero` next to `result[0]`)
+              res.ok({"loop": "line %d" % body.term(nexts[0])["sp"][1], "verdict": "the skipped first wire of the same vector is read separately (line %d)" % body.term(firsts[0])["sp"][1]})
+          else:
+              res.bad(Finding("A13", f["id"], "a conjunction over an operand's wires leaves out the first wire",
+                              "the fold runs over `.iter().skip(1)` and the first wire of the same vector never enters the accumulator: the condition also holds for values that differ in the "
+                              "sign bit (`y == -1` tested without the sign bit holds for MAX: MIN / MAX panics with Overflow although -1 is representable)", body.term(nexts[0])["sp"]))
     if n < 2 and not res.findings:
         raise AnchorMissing("A13: expected the `is the smallest value` folds of Neg / Div (skip(1) + first wire), found %d" % n)
     return res
